@@ -147,6 +147,21 @@ def r_conll_heads(repo, rep, R='R7.1'):
                 continue
             unstr = lambda t: t[2][0] if t[0] == 'call' and t[1] == N('str') and len(t[2]) == 1 else t
             id_t, head_t = unstr(els[0]), unstr(els[6])
+            if id_t[0] == 'unpack' and id_t[2] == 0 and id_t[1][0] == 'call' and id_t[1][1] == N('next') and len(id_t[1][2]) == 1 and id_t[1][2][0][0] == 'name' \
+                    and head_t == ('binop', '+', ('unpack', id_t[1], 1), C(1)):
+                # (ID, head) pairs drawn from enumerate(_resolve_dependencies(tree), 1), one per leaf
+                draw = id_t[1]
+                outer_fn = mod.get('conll_of')
+                binds = [a_ for a_ in ast.walk(outer_fn) if isinstance(a_, ast.Assign) and any(isinstance(t_, ast.Name) and t_.id == draw[2][0][1] for t_ in a_.targets)]
+                tparam = outer_fn.args.args[0].arg
+                want_src = ('enumerate(_resolve_dependencies(%s),1)' % tparam, 'enumerate(_resolve_dependencies(%s),start=1)' % tparam)
+                from_resolve = len(binds) == 1 and src(binds[0].value).replace(' ', '') in want_src \
+                    and not any(isinstance(p_, (ast.For, ast.While)) for p_ in _parents_until(binds[0], outer_fn))
+                draws = [e for e in st.events if e[0] == 'call' and e[1] == draw]
+                ok_cols = from_resolve
+                ok_adv = from_resolve and len(draws) == 1
+                detail = 'ID and head are the two halves of one draw from %s' % (src(binds[0].value)[:60] if binds else '?')
+                continue
             if not (head_t[0] == 'binop' and head_t[1] == '+' and head_t[3] == C(1) and head_t[2][0] == 'sub' and head_t[2][1] == N('dependencies')):
                 detail = 'head column is %s' % show(head_t)[:60]
                 continue
@@ -172,7 +187,8 @@ def r_conll_heads(repo, rep, R='R7.1'):
               'ID and head columns do not refer to the same word: %s' % detail)
     rep.check(ok_adv, R, '%s:%s conll_of.rec' % (CONLL, crec.lineno), 'conll:counter', 'the word position advances by one per leaf', 'the word position does not advance by exactly one per leaf (%s)' % detail)
     co = mod.get('conll_of')
-    rep.check(any(isinstance(n, ast.Assign) and src_ref(n.value) == '_resolve_dependencies(tree)' for n in ast.walk(co)), R,
+    rep.check(any(isinstance(n, ast.Assign) and (src_ref(n.value) == '_resolve_dependencies(tree)' or any(
+        isinstance(c_, ast.Call) and src_ref(c_) == '_resolve_dependencies(tree)' for c_ in ast.walk(n.value))) for n in ast.walk(co)), R,
               '%s:%s conll_of' % (CONLL, co.lineno), 'conll:uses-resolve', 'the column is computed by _resolve_dependencies(tree) of the printed tree',
               'conll_of does not call _resolve_dependencies(tree)')
     pass
